@@ -874,7 +874,12 @@ def impl_header(idx, ipath, log):
     return hdr, it
 
 
-def build_unit(idx, vc_verify, vc_trusted, spec_files, verif_root, only_fns=None):
+def assume_proofs(text):
+    """imported spec text: lemmas are proved in their home unit; here only their statements are used"""
+    return re.sub(r"(?m)^(\s*)(pub\s+)?(broadcast\s+)?proof\s+fn\s", lambda m: m.group(1) + "#[verifier::external_body] " + (m.group(2) or "") + (m.group(3) or "") + "proof fn ", text)
+
+
+def build_unit(idx, vc_verify, vc_trusted, spec_files, verif_root, only_fns=None, spec_import=()):
     """vc_verify: .vc files whose @fn entries are verified in this unit; vc_trusted: imported as contracts only.
     returns (text, origin map, info dict)"""
     em = Emitter()
@@ -884,6 +889,7 @@ def build_unit(idx, vc_verify, vc_trusted, spec_files, verif_root, only_fns=None
     fn_entries = []   # (contract, verify?)
     for f in vc_trusted:
         fns, specs = parse_vc(os.path.join(verif_root, "contracts", f))
+        specs = [(k, a, assume_proofs(t) if k in ("spec", "lemmas") else t) for (k, a, t) in specs]
         all_specs += [(f, s) for s in specs]
         fn_entries += [(c, False) for c in fns]
     for f in vc_verify:
@@ -909,6 +915,9 @@ def build_unit(idx, vc_verify, vc_trusted, spec_files, verif_root, only_fns=None
             if text:
                 em.add(text)
             em.add(render(toks))
+    for sf in spec_import:
+        em.add("// ======== spec file %s (imported: lemmas proved in their home unit)" % sf)
+        em.add(assume_proofs(open(os.path.join(verif_root, "spec", sf)).read()))
     for sf in spec_files:
         em.add("// ======== spec file %s" % sf)
         em.add(open(os.path.join(verif_root, "spec", sf)).read())
